@@ -289,7 +289,7 @@ fn filter_index(q: &Query) -> HashMap<String, Or> {
 /// different segmentation; same text under another root), combined pairwise in one filter, over
 /// documents in which their truth values vary independently
 pub fn confusable_cases(rng: &mut Rng, n_docs: usize) -> Vec<(String, J)> {
-    let tails = [".ab", ".a.b", "['a.b']", ".a['b']", ".x1", ".x[1]", ".x['1']", ".l[0,1]", ".l[0][1]", ".l[:]", ".l[0:]", ".l[0:0]", ".l[*]", "..b", ".a..b", ".a.*", "['a','b']", ".a", ".b"];
+    let tails = [".ab", ".a.b", "['a.b']", ".a['b']", ".x1", ".x[1]", ".x['1']", ".l[0,1]", ".l[0][1]", ".l[:]", ".l[0:]", ".l[0:0]", ".l[*]", "..b", ".a..b", ".a.*", "['a','b']", ".a", ".b", "..a.b", "..a.a", "..a[0]", "..b.b"];
     let block = |r: &mut Rng| -> J {
         let mut m: Vec<(String, J)> = vec![];
         let o = |k: &str, v: J| J::Obj(vec![(k.to_string(), v)]);
@@ -297,7 +297,7 @@ pub fn confusable_cases(rng: &mut Rng, n_docs: usize) -> Vec<(String, J)> {
             m.push(("ab".into(), J::int(1 + r.below(3) as i64)));
         }
         if r.chance(2, 3) {
-            m.push(("a".into(), match r.below(5) { 0 | 1 => o("b", J::int(1 + r.below(3) as i64)), 2 => o("c", J::int(1)), 3 => o("b", o("b", J::int(2))), _ => J::int(1) }));
+            m.push(("a".into(), match r.below(8) { 0 | 1 => o("b", J::int(1 + r.below(3) as i64)), 2 => o("c", J::int(1)), 3 => o("b", o("b", J::int(2))), 4 => o("a", o("b", J::int(1))), 5 => o("a", J::Arr(vec![o("a", o("a", J::int(3)))])), 6 => J::Arr(vec![J::int(0), o("a", o("b", J::int(2)))]), _ => J::int(1) }));
         }
         if r.chance(1, 2) {
             m.push(("a.b".into(), J::int(1 + r.below(3) as i64)));
@@ -352,7 +352,7 @@ pub fn confusable_cases(rng: &mut Rng, n_docs: usize) -> Vec<(String, J)> {
             }
             // same root: all pairs; across roots: only the same tail and a sample of the others
             let same_root = p.as_bytes()[0] == q.as_bytes()[0];
-            if !same_root && p[1..] != q[1..] && (i * 31 + k) % 7 != 0 {
+            if !same_root && p[1..] != q[1..] && (i * 31 + k) % 2 != 0 {
                 continue;
             }
             let forms = [format!("{} && {}", p, q), format!("{} || {}", p, q), format!("!{} && {}", p, q), format!("{} || !{}", p, q), format!("@.k == 1 && {} || @.k == 2 && {}", p, q), format!("({} || @.k == 3) && !({} && @.k == 4)", p, q)];
